@@ -265,6 +265,11 @@ def rt_sandwich(seed, n, constant=False):
         with warnings.catch_warnings():
             warnings.simplefilter('ignore')
             eps = rnd.choice([1e-2, 1e-3])
+            if k % 2 == 0:
+                # the MODEL object has been planned on before, with a much looser threshold (a threshold sweep on one model): whatever that run left on the
+                # model must not enter this one -- every clause below is about `res` and its own threshold
+                pb.PointBasedValueIteration(min_belief_expansions=2, max_belief_expansions=3, value_convergence_epsilon=0.5).plan_on(pomdp)
+                qm.QMDP().plan_on(pomdp)
             res = pb.PointBasedValueIteration(min_belief_expansions=3, max_belief_expansions=6, value_convergence_epsilon=eps).plan_on(pomdp)
             qres = qm.QMDP().plan_on(pomdp)
             # planner OBJECTS that have already planned on the previous instances (other discount, other rewards) must plan like fresh ones
@@ -314,7 +319,7 @@ def rt_sandwich(seed, n, constant=False):
         full = pomdp.state_action_reward_matrix          # the planner derives its horizon from the unmasked matrix
         fmax, fmin = float(full.max()), float(full.min())
         rr = (fmax - fmin) or abs(fmax)
-        hor = int(np.ceil(np.log(eps / rr) / np.log(g))) if rr > 0 else 1
+        hor = max(1, int(np.ceil(np.log(eps / rr) / np.log(g)))) if rr > 0 else 1          # at least one backup (F25)
         slack = eps / (1 - g) + (g ** max(hor, 0)) * max(0.0, -rmin) / (1 - g) + 1e-9
         sl = list(pomdp.state_list)
         w = dict(skel=sk.name, gamma=g, eps=eps, cost_only=cost_only, R=repr({k_: float(x) for k_, x in v.R.items()}))
